@@ -60,7 +60,11 @@ func cmdCheck(args []string) {
 	prop := fs.String("prop", "", "property id")
 	tier := fs.String("tier", "quick", "quick or thorough")
 	repo := fs.String("repo", "/repo", "repository")
+	noEv := fs.Bool("no-evidence", false, "do not write evidence/replay files under /verif (scratch runs)")
 	fs.Parse(args)
+	if *noEv {
+		scratchOut = true
+	}
 	if *prop == "" {
 		usage()
 	}
@@ -233,8 +237,13 @@ func runCheck(prop, tier, repo string, seed int, overlay map[string][]byte, repo
 	return exit
 }
 
+var scratchOut bool
+
 func writeReplay(prop string, o *Obligation, eng *Engine) string {
 	dir := filepath.Join(verifDir, "replay", prop)
+	if scratchOut {
+		dir = filepath.Join(os.TempDir(), "gvc-scratch-replay", prop)
+	}
 	os.MkdirAll(dir, 0o755)
 	name := fileSafe.ReplaceAllString(o.Name, "_")
 	if len(name) > 120 {
@@ -264,6 +273,9 @@ func writeReplay(prop string, o *Obligation, eng *Engine) string {
 }
 
 func writeEvidence(res *propResult, tier string, seed int, eng *Engine) {
+	if scratchOut {
+		return
+	}
 	os.MkdirAll(filepath.Join(verifDir, "evidence"), 0o755)
 	nOb, nDis := 0, 0
 	var samples []interface{}
